@@ -20,7 +20,7 @@ ASSUMPTIONS = ["dimension 0 is the batch when the tensor has >1 dimensions and >
                "per-antenna power is the mean squared magnitude over the dimensions after (batch, antenna), as documented; inputs have >= 3 dimensions"]
 CHK = "c08:check_case"
 
-FAMILIES = ("gaussian", "uniform", "ofdm", "student_t", "constant", "alternating")
+FAMILIES = ("gaussian", "uniform", "ofdm", "student_t", "constant", "alternating", "unequal_rows")
 
 
 def gen_signal(shape, family, cplx, scale, rng):
@@ -37,6 +37,11 @@ def gen_signal(shape, family, cplx, scale, rng):
             return np.ones(sz) * 0.7
         if family == "alternating":
             return np.where(np.arange(int(np.prod(sz))).reshape(sz) % 2 == 0, 1.0, -1.0) * 0.9
+        if family == "unequal_rows":
+            # constant-envelope rows (last axis) with very different amplitudes: every row has PAPR 1, the item does not
+            a = np.where(np.arange(int(np.prod(sz))).reshape(sz) % 2 == 0, 1.0, -1.0)
+            gains = rng.choice([0.2, 1.0, 1.0, 3.0], size=sz[:-1] + (1,)) if len(sz) > 1 else np.ones(1)
+            return a * gains
         raise ValueError
     if family == "ofdm":
         q = (rng.choice([-1, 1], size=shape) + 1j * rng.choice([-1, 1], size=shape)) / np.sqrt(2)
@@ -120,7 +125,8 @@ def check_power_constraint(ctx, cell, case, x):
         o2 = con(out).numpy()
         ctx.check(np.allclose(o2, o, rtol=2e-4, atol=1e-6 * np.abs(o).max()), "C08.d_idempotent", cell, case, float(np.max(np.abs(o2 - o))), 0.0, "constraint is not idempotent", CHK)
         for a in (1e-2, 3.0, 1e3):
-            if pw(x, "average") * a * a < 1e-4 or np.abs(x).max() * a > 1e6:
+            # every *item* must stay in the non-negligible range after rescaling (the constraints add 1e-8 to the power)
+            if min(pw(xi, "average") for xi in items_of(x)) * a * a < 1e-4 or np.abs(x).max() * a > 1e6:
                 continue
             oa = con(to_t(x * a)).numpy()
             ctx.check(np.allclose(oa, o, rtol=3e-4, atol=1e-6 * np.abs(o).max()), "C08.e_scale_invariant", cell, {**case, "a": a}, float(np.max(np.abs(oa - o))), 0.0, "output changes when the input is rescaled", CHK)
